@@ -425,7 +425,8 @@ def _table(ctx, model):
             finally:
                 cur[0] = None
             want = ref(Rat.atom)
-            ok = got.equals(want) and arity == 1
+            ok = (got.equals(want) or got.equals_mod_identities(want)) \
+                and arity == 1
             ctx.ob(f"E/table/{fname}", ok, loc,
                    f"d/dp {fname}(p) = {want}" if ok else
                    f"the rule for math.{fname} gives {got}, the derivative is "
@@ -979,9 +980,11 @@ def _linear_rules(ctx, model, dm):
     ok = False
     for ps in handler_summaries(model, nt.get("CommonSubexpression"), mem.node):
         rv = ps.retval
-        ok = rv[0] == "ctor" and rv[2] == (
-            ("rec", ("field", "child"), True, ()), ("field", "prefix"),
-            ("field", "scope"))
+        # (the prefix is a naming hint for code generators: whatever is put
+        # there, the wrapper means its child)
+        ok = rv[0] == "ctor" and len(rv[2]) == 3 and rv[2][0] == (
+            "rec", ("field", "child"), True, ()) and rv[2][2] == (
+            "field", "scope")
     ctx.ob("E/map_common_subexpression_uncached", ok, where(mem),
            "CSE(x)' = CSE(x')" if ok else
            "the CSE rule does not rebuild the wrapper around the derivative of "
